@@ -92,6 +92,159 @@ for letters in itertools.product(("E", "N", "Z", "other"), repeat=3):
                              clauses=["components are assigned by channel code, independent of the order of the traces"])
     TASKS.append(TASKS_ARR)
 
+# ---------------------------------------------------------------------------------------------------------------------
+# _read_minishark and _read_saf under contract: everything *around* the regular expressions.  The text of the file is opaque; every pattern's match
+# is an opaque string with an identity (HEADER(name) for the header fields, ROW(i, j) for group j of the i-th data row, in file order: A-RE); int() /
+# float() of such a string are uninterpreted functions of that identity.  Proved: which column goes to which component, the scaling, the time step,
+# the orientation rule, the sample-count check, and that a list of files is refused.  Stores into the float32 buffer are exact in the model (A-F32).
+from pyvc.core import I, R, B, NONE, ARef, ModV, ClsV, DictV, Undecided, lit, ReturnRec
+from pyvc.contract import sym_obj
+from pyvc import npmodel as npm
+
+PARSE_INT = z3.Function("int_of_text", I, I)
+PARSE_FLOAT = z3.Function("float_of_text", I, R)
+HEADER = z3.Function("header_field_text", I, I)       # identity of the text matched for header field number k
+ROWTXT = z3.Function("row_group_text", I, I, I)        # identity of group j of data row i
+NROWS = z3.Int("n_data_rows")
+_FIELDS = {}
+
+
+def _field(name):
+    return HEADER(z3.IntVal(_FIELDS.setdefault(name, len(_FIELDS))))
+
+
+class OStr(StrV):
+    """an opaque string with an identity"""
+
+    def __init__(self, sym_id):
+        super().__init__("<matched text>")
+        self.sym_id = sym_id
+
+    def merge_with(self, cond, other):
+        return OStr(z3.If(cond, self.sym_id, other.sym_id))
+
+
+def _m_int(ex, st, args, kw, node):
+    if isinstance(args[0], OStr):
+        return PARSE_INT(args[0].sym_id)
+    return npm.BUILTINS["int"].fn(ex, st, args, kw, node)
+
+
+def _m_float(ex, st, args, kw, node):
+    if isinstance(args[0], OStr):
+        return PARSE_FLOAT(args[0].sym_id)
+    return npm.BUILTINS["float"].fn(ex, st, args, kw, node)
+
+
+def _pattern(name, optional=None):
+    """a compiled pattern: .search(text).groups()[0] is the field's text; an optional field that is absent makes .groups() fail (AttributeError on None)"""
+    def groups(ex, st, args, kw, node):
+        if optional is not None and not ex.spec_mode:
+            miss = st.fork()
+            miss.pc.append(z3.Not(optional))
+            ex.returns.append(ReturnRec(miss, None, "AttributeError", getattr(node, "lineno", 0)))
+            st.pc.append(optional)
+        return Tup((OStr(_field(name)),))
+    match = ModV("match", {"groups": FuncV(groups, "groups")})
+    return ModV(name, {"search": FuncV(lambda ex, st, a, k, n_: match, "search")})
+
+
+def _row_pattern(name, ngroups=3):
+    def finditer(ex, st, args, kw, node):
+        from pyvc.core import SeqV
+        def row(ex_, st_, i):
+            return ModV("row", {"groups": FuncV(lambda e2, s2, a2, k2, n2, _i=i: Tup(OStr(ROWTXT(_i, z3.IntVal(j))) for j in range(ngroups)), "groups")})
+        return SeqV(NROWS, row, owner="fresh", name="rows")
+    return ModV(name, {"finditer": FuncV(finditer, "finditer")})
+
+
+def _m_open_text(ex, st, args, kw, node):
+    return ModV("file", {"read": FuncV(lambda e2, s2, a2, k2, n2: StrV("<text of the file>"), "read")})
+
+
+def _m_ts(ex, st, args, kw, node):
+    d = ex.arr(st, args[0])
+    return ex.alloc_obj(st, "TimeSeries", {"amplitude": ex.alloc_arr(st, d.shape, d.data, "real", "fresh", tag="samples"), "dt_in_seconds": kw["dt_in_seconds"]}, "fresh")
+
+
+def _m_rec(ex, st, args, kw, node):
+    return ex.alloc_obj(st, "SeismicRecording3C", {"ns": args[0], "ew": args[1], "vt": args[2], "degrees_from_north": kw["degrees_from_north"], "meta": kw.get("meta", NONE)}, "fresh")
+
+
+def _m_empty_f32(ex, st, args, kw, node):
+    kw = {k: v for k, v in kw.items() if k != "dtype"}          # float32 buffer: stores are exact in the model (A-F32)
+    return npm.NP.attrs["empty"].fn(ex, st, args, kw, node)
+
+
+_RD_NP = ModV("np", dict(npm.NP.attrs, empty=FuncV(_m_empty_f32, "np.empty"), float32=StrV("float32")))
+_RD_BASE = {"int": FuncV(_m_int, "int"), "float": FuncV(_m_float, "float"), "str": FuncV(lambda ex, st, a, k, n_: StrV("<str>"), "str"), "open": FuncV(_m_open_text, "open"),
+            "list": ClsV("list"), "tuple": ClsV("tuple"), "io": ModV("io", {"StringIO": ClsV("StringIO")}), "np": _RD_NP,
+            "TimeSeries": FuncV(_m_ts, "TimeSeries"), "SeismicRecording3C": FuncV(_m_rec, "SeismicRecording3C"), "_check_npts": CHECK_NPTS,
+            "warnings": ModV("warnings", {"warn": FuncV(lambda ex, st, a, k, n_: NONE, "warnings.warn")}), "UserWarning": ClsV("UserWarning")}
+DEG_IN = z3.Real("degrees_from_north_given")
+
+
+def _rd_inputs(deg_given, as_list=False):
+    def mk(ex, st):
+        st.env["fnames"] = ex.alloc_list(st, [StrV("<a>"), StrV("<b>")]) if as_list else StrV("<fname>")
+        st.env["obspy_read_kwargs"] = NONE
+        st.env["degrees_from_north"] = DEG_IN if deg_given else NONE
+        st.env["NROWS"] = NROWS
+        return [NROWS >= 0]
+    return mk
+
+
+_ROWF = lambda i, j: f"float_of(ROW({i}, {j}))"
+_RD_GHOST = {"ROW": lambda i, j: ROWTXT(i, j), "float_of": PARSE_FLOAT, "int_of": PARSE_INT, "FIELD": FuncV(lambda ex, st, a, k, n_: _field(a[0].s), "FIELD"), "NROWS": NROWS}
+
+# ---- MiniShark: columns vt, ns, ew; every sample divided by gain and by the conversion factor
+_MS_ENV = dict(_RD_BASE, mshark_npts_exec=_pattern("npts"), mshark_fs_exec=_pattern("fs"), mshark_conversion_exec=_pattern("conversion"), mshark_gain_exec=_pattern("gain"),
+               mshark_row_exec=_row_pattern("rows"))
+_ms_col = lambda comp, j: (f"len(result.{comp}.amplitude) == NROWS and forall(i, 0, NROWS, result.{comp}.amplitude[i] == "
+                           f"({_ROWF('i', j)} / int_of(FIELD('gain'))) / int_of(FIELD('conversion'))) and result.{comp}.dt_in_seconds == 1 / float_of(FIELD('fs'))")
+for _dg in (False, True):
+    _c = Contract(qual="hvsrpy.data_wrangler._read_minishark", params=["fnames", "obspy_read_kwargs", "degrees_from_north"], ghost=_RD_GHOST, make_inputs=_rd_inputs(_dg),
+                  requires=["int_of(FIELD('gain')) != 0 and int_of(FIELD('conversion')) != 0 and float_of(FIELD('fs')) != 0 and int_of(FIELD('npts')) >= 0",
+                            "NROWS <= int_of(FIELD('npts'))"],      # surplus rows overrun the buffer (IndexError in numpy): evaluated natively, not modelled
+                  raises={"ValueError": "int_of(FIELD('npts')) != NROWS"},
+                  ensures=[_ms_col("vt", 0), _ms_col("ns", 1), _ms_col("ew", 2),
+                           "result.degrees_from_north == " + ("degrees_from_north" if _dg else "0")],
+                  loops={0: ["idx == _k0", "forall(i, 0, _k0, " + " and ".join(f"data[i, {j}] == {_ROWF('i', j)}" for j in range(3)) + ")"]},
+                  stable_shapes=("data",), modifies=[],
+                  notes="MiniShark: first column vertical, second north, third east, each divided by gain and conversion factor; time step 1/fs; orientation as given "
+                        "(0 when not given, an explicit 0 included); a row count that disagrees with the header raises")
+    TASKS.append(FunctionTask(_c, module_env=_MS_ENV, label=f"hvsrpy.data_wrangler._read_minishark[degrees_from_north={'given' if _dg else 'None'}]",
+                              clauses=["MiniShark: columns -> components, header scaling, time step, orientation, count check"]))
+TASKS.append(FunctionTask(Contract(qual="hvsrpy.data_wrangler._read_minishark", params=["fnames", "obspy_read_kwargs", "degrees_from_north"], make_inputs=_rd_inputs(False, True),
+                                   raises={"ValueError": "True"}, ensures=[], modifies=[]),
+                          module_env=_MS_ENV, label="hvsrpy.data_wrangler._read_minishark[list of files]", clauses=["more than one file is refused"]))
+
+# ---- SAF: the header names the column of each component (CHn_ID); NORTH_ROT is the orientation of the first horizontal channel
+HAS_ROT = z3.Bool("file_has_NORTH_ROT")
+_SAF_ENV = dict(_RD_BASE, saf_version_exec=_pattern("version"), saf_npts_exec=_pattern("npts"), saf_fs_exec=_pattern("fs"), saf_v_ch_exec=_pattern("v_ch"),
+                saf_n_ch_exec=_pattern("n_ch"), saf_e_ch_exec=_pattern("e_ch"), saf_north_rot_exec=_pattern("north_rot", optional=HAS_ROT), saf_row_exec=_row_pattern("rows"))
+_CH = lambda c: f"int_of(FIELD('{c}_ch'))"
+_saf_col = lambda comp, ch: (f"len(result.{comp}.amplitude) == NROWS and forall(i, 0, NROWS, result.{comp}.amplitude[i] == float_of(ROW(i, {ch}))) and "
+                             f"result.{comp}.dt_in_seconds == 1 / float_of(FIELD('fs'))")
+_SAF_REQ = [" and ".join(f"0 <= {_CH(c)} and {_CH(c)} <= 2" for c in "vne") + " and float_of(FIELD('fs')) != 0 and int_of(FIELD('npts')) >= 0",
+            "NROWS <= int_of(FIELD('npts'))"]
+for _dg in (False, True):
+    _rot = ("degrees_from_north" if _dg else
+            f"ite(HAS_ROT, ite({_CH('n')} == 1, float_of(FIELD('north_rot')), float_of(FIELD('north_rot')) + 90), 0)")
+    _c = Contract(qual="hvsrpy.data_wrangler._read_saf", params=["fnames", "obspy_read_kwargs", "degrees_from_north"], ghost=dict(_RD_GHOST, HAS_ROT=HAS_ROT),
+                  make_inputs=_rd_inputs(_dg), requires=_SAF_REQ,
+                  raises={"ValueError": f"int_of(FIELD('npts')) != NROWS" + ("" if _dg else f" or (HAS_ROT and {_CH('n')} != 1 and {_CH('e')} != 1)")},
+                  ensures=[_saf_col("vt", _CH("v")), _saf_col("ns", _CH("n")), _saf_col("ew", _CH("e")), f"result.degrees_from_north == {_rot}"],
+                  loops={0: ["idx == _k0", "forall(i, 0, _k0, " + " and ".join(f"data[i, {j}] == float_of(ROW(i, {_CH(c)}))" for j, c in enumerate("vne")) + ")"]},
+                  stable_shapes=("data",), modifies=[],
+                  notes="SAF: the vertical / north / east samples are the columns the header names for them; time step 1/fs; orientation = the value given, else NORTH_ROT "
+                        "when the north channel is channel 1, NORTH_ROT + 90 when the east channel is, 0 when the file has no NORTH_ROT; otherwise refused")
+    TASKS.append(FunctionTask(_c, module_env=_SAF_ENV, label=f"hvsrpy.data_wrangler._read_saf[degrees_from_north={'given' if _dg else 'None'}]",
+                              clauses=["SAF: header-named columns -> components, time step, NORTH_ROT rule, count check"]))
+TASKS.append(FunctionTask(Contract(qual="hvsrpy.data_wrangler._read_saf", params=["fnames", "obspy_read_kwargs", "degrees_from_north"], make_inputs=_rd_inputs(False, True),
+                                   raises={"ValueError": "True"}, ensures=[], modifies=[]),
+                          module_env=_SAF_ENV, label="hvsrpy.data_wrangler._read_saf[list of files]", clauses=["more than one file is refused"]))
+
 META = dict(
     level="other",
     explanation="proved: _check_npts raises iff the counts differ; _arrange_traces for three traces and all 64 combinations of channel-code endings "
